@@ -20,6 +20,11 @@
 (*                 exact exhaustion flags and silence after its end (C05)  *)
 (* State per execution = (term and sources = the reset line, n outputs so  *)
 (* far, direct calls per borrowed source, whether the term is gone).       *)
+(* cfg.st > 0: the receiver chain of the term was built st levels deep as  *)
+(* one concretely typed stack (static dispatch; Signals!RawSrcs).  The     *)
+(* judgement is the same denotation; only the pull counter of a bare       *)
+(* source inside that region is known to stay 0.  An opaque source's       *)
+(* frames are those its twin delivered (reset line, o.twin).               *)
 (*                                                                         *)
 (* IOEnv.SIG_PROP = "C04" | "C05" selects which group of conjuncts may     *)
 (* reject (default: both).  Output lines:                                  *)
@@ -50,12 +55,21 @@ vars == << l, r0, n, rs, gone, skip >>
 
 Ev == Rec[l]
 C == Rec[r0].cfg
-X == [ch |-> C.ch, srcs |-> C.srcs]
+NSrc == Len(C.srcs)
+\* an opaque source holds what its twin delivered
+X == [ch |-> C.ch,
+      srcs |-> [j \in 1..NSrc |-> IF C.srcs[j].kind = "opaque"
+                                    THEN [fmt |-> C.srcs[j].fmt, kind |-> "opaque", xs |-> Rec[r0].o.twin[j]]
+                                    ELSE C.srcs[j]]]
 T == C.term
 F == C.fmt
-NSrc == Len(C.srcs)
+St == IF "st" \in DOMAIN C THEN C.st ELSE 0          \* depth of the statically typed receiver chain
+Raw == RawSrcs(T, St)                                 \* sources nothing counts the pulls of
+\* frames of the twin that were recorded: an execution must not pull an opaque source further
+TwinOK(m) == \A j \in 1..NSrc : C.srcs[j].kind = "opaque" => m <= Len(Rec[r0].o.twin[j])
 
-ExpPulls(m, r) == [j \in 1..NSrc |-> Pulls(T, j, m) + r[j]]
+ObsPulls(j, m) == IF j \in Raw THEN 0 ELSE Pulls(T, j, m)
+ExpPulls(m, r) == [j \in 1..NSrc |-> ObsPulls(j, m) + r[j]]
 Some(v) == [k |-> "some", v |-> v]
 \* inspect-closure calls while the root delivers outputs base+1 .. base+m
 RECURSIVE InspCount(_, _)
@@ -76,7 +90,7 @@ JNext ==
       ok05  |-> /\ Ev.o.exh_before = ExhDen(X, T, n)
                 /\ Ev.o.exh_after = ExhDen(X, T, m)
                 /\ (T.k \in LeafSrc /\ m > DLen(X, T) => frameOK),      \* an ended source yields equilibrium
-      undef |-> ~frameOK /\ ~DenDefined(X, T, F, m),
+      undef |-> ~TwinOK(m) \/ (~frameOK /\ ~DenDefined(X, T, F, m)),
       sync |-> TRUE, n |-> m, rs |-> rs, gone |-> FALSE]
 
 JIsExh ==
@@ -88,7 +102,7 @@ JIsExh ==
 \* with a borrowed leaf cannot be cloned (`&mut S` is not Clone): not judged
 JClone ==
   [ok04 |-> Ev.o.ok /\ Ev.r = [k |-> "unit"] /\ Ev.o.pulls = ExpPulls(n, rs), ok05 |-> TRUE,
-   undef |-> ByRefsOf(T) # {}, sync |-> TRUE, n |-> n, rs |-> rs, gone |-> FALSE]
+   undef |-> ByRefsOf(T) # {} \/ St > 0 \/ Raw # {}, sync |-> TRUE, n |-> n, rs |-> rs, gone |-> FALSE]
 
 JDrop ==
   [ok04 |-> Ev.o.pulls = ExpPulls(n, rs), ok05 |-> TRUE, undef |-> FALSE, sync |-> TRUE, n |-> n, rs |-> rs, gone |-> TRUE]
@@ -102,7 +116,7 @@ JCollect ==
       wellformed == /\ c \in {"take", "ue", "il", "lift"}
                     /\ (c # "take" => finite)
                     /\ (c = "lift" => n = 0 /\ ~Rec[r0].o.built /\ a.j \in SrcsOf(T))
-                    /\ (isClone => ~a.byref /\ ByRefsOf(T) = {})        \* `&mut S` is not Clone
+                    /\ (isClone => ~a.byref /\ ByRefsOf(T) = {} /\ St = 0 /\ Raw = {})  \* `&mut S` is not Clone; static stacks / opaque sources are not cloned
       cnt == IF c = "take" THEN a.n ELSE UeCount(X, T, n)                \* frames the root delivers
       exp == IF c = "il" THEN IlItems(X, T, F, n) ELSE DenRange(X, T, F, n, cnt)
       \* *_clone: got = the k items before the clone was taken, then what the CLONE yielded -- judged
@@ -128,9 +142,9 @@ JCollect ==
       tailLenOK == Len(Ev.o.tail) = Len(cloneTail)                       \* the original yields as many ...
       tailSame == tailLenOK => Ev.o.tail = cloneTail                     \* ... and the same items as its clone
       \* original and clone share the instrumentation: both sets of pulls / closure calls are counted
-      expPulls == [j \in 1..NSrc |-> 2 * Pulls(T, j, n + cnt) - Pulls(T, j, n + fk) + rs[j]]
+      expPulls == [j \in 1..NSrc |-> 2 * ObsPulls(j, n + cnt) - ObsPulls(j, n + fk) + rs[j]]
       inspCalls == 2 * InspCount(n, cnt) - InspCount(n, fk)
-  IN IF ~wellformed \/ (finite /\ a.cap < Len(exp))
+  IN IF ~wellformed \/ ~TwinOK(n + cnt) \/ (finite /\ a.cap < Len(exp))
        THEN [ok04 |-> TRUE, ok05 |-> TRUE, undef |-> TRUE, sync |-> TRUE, n |-> n, rs |-> rs, gone |-> TRUE]
      ELSE
        [ok04  |-> /\ isItems
